@@ -1,16 +1,80 @@
-import GopatchModel.FileM
+import GopatchModel.Spec.Sound
+import GopatchModel.Spec.Traverse
 namespace Gopatch.C01
+open Gopatch
 
-/-- element-wise matching only succeeds on lists of equal length (an extra or a missing
-argument is never matched by a pattern without elision) -/
-theorem matchVs_length (mt : Meta) : ∀ (ps gs : List V) (d d' : Data),
-    matchVs mt ps gs d = some d' → ps.length = gs.length
-  | [], [], _, _, _ => rfl
-  | [], _ :: _, _, _, h => by simp [matchVs] at h
-  | _ :: _, [], _, _, h => by simp [matchVs] at h
-  | p :: ps, g :: gs, d, d', h => by
-      simp only [matchVs, Option.bind_eq_some_iff] at h
-      obtain ⟨d1, _, h2⟩ := h
-      simp [matchVs_length mt ps gs d1 d' h2]
+/-- **Only instances are matched.** Whenever the matcher compiled from a pattern accepts a
+piece of code, that code is a syntactic instance of the pattern: the same tree up to positions
+(validity only), comments and resolved objects, with one global substitution for the
+metavariables (the final bindings) and some run for every elision. -/
+theorem match_only_instances (mt : Meta) (p g : V) (d d' : Data) (h : matchV mt p g d = some d') :
+    Inst mt d'.mv p g :=
+  (matchV_sound mt p g d d' h).2 d'.mv (fun _ _ hc => hc)
+
+/-- The sites recorded for a file are exactly the nodes of the file — in traversal order,
+whatever the function, nesting depth or syntactic position — at which the node matcher
+succeeds, each tried with the same incoming data. -/
+theorem sites_are_matching_nodes (c : Change) (d : Data) (id : Nat) (fs : List V) :
+    (sitesFields (nodeMatch c d) id 0 fs).map (·.data) = (nodesL fs).filterMap (nodeMatch c d) :=
+  sitesFields_data (nodeMatch c d) fs id 0
+
+/-- every site of an expression / declaration pattern is an instance of the '-' pattern -/
+theorem site_is_instance (c : Change) (d : Data) (id : Nat) (fs : List V) (hk : c.minus.kind ≠ "stmts")
+    (s : Site) (hs : s ∈ sitesFields (nodeMatch c d) id 0 fs) :
+    ∃ n ∈ nodesL fs, matchV c.mt c.minus.node n d = some s.data ∧ Inst c.mt s.data.mv c.minus.node n := by
+  have hmem : s.data ∈ (sitesFields (nodeMatch c d) id 0 fs).map (·.data) := List.mem_map.2 ⟨s, hs, rfl⟩
+  rw [sites_are_matching_nodes] at hmem
+  obtain ⟨n, hn, hm⟩ := List.mem_filterMap.1 hmem
+  have hk' : (c.minus.kind == "stmts") = false := by simpa using hk
+  simp only [nodeMatch, hk', Bool.false_eq_true, ↓reduceIte] at hm
+  exact ⟨n, hn, hm, match_only_instances _ _ _ _ _ hm⟩
+
+/-- conversely every node of the file that the matcher accepts is a site (no instance is
+skipped, including instances nested inside other instances) -/
+theorem matching_node_is_site (c : Change) (d d' : Data) (id : Nat) (fs : List V) (n : V)
+    (hn : n ∈ nodesL fs) (hm : nodeMatch c d n = some d') :
+    d' ∈ (sitesFields (nodeMatch c d) id 0 fs).map (·.data) := by
+  rw [sites_are_matching_nodes]
+  exact List.mem_filterMap.2 ⟨n, hn, hm⟩
+
+/-! ### code that differs from the pattern in a token is not an instance -/
+
+/-- a different operator, token kind, channel direction (all stored as integers) -/
+theorem int_differs (mt : Meta) (σ : Subst) (a b : Int) (h : Inst mt σ (.int a) (.int b)) : a = b := by
+  cases h; rfl
+
+/-- a different literal value or name -/
+theorem str_differs (mt : Meta) (σ : Subst) (a b : String) (h : Inst mt σ (.str a) (.str b)) : a = b := by
+  cases h; rfl
+
+/-- presence of an optional token recorded as a position (variadic `...` of a call, alias `=` of a
+type declaration, parentheses of a declaration group, the arrow of a channel type) must agree -/
+theorem pos_validity_differs (mt : Meta) (σ : Subst) (v w : Bool) (k l : Nat)
+    (h : Inst mt σ (.pos v k) (.pos w l)) : v = w := by
+  cases h; rfl
+
+/-- an extra or a missing element in a list without elision -/
+theorem list_length_differs (mt : Meta) (σ : Subst) : ∀ (ps gs : List V), InstList mt σ ps gs → ps.length = gs.length
+  | [], [], _ => rfl
+  | _ :: ps, _ :: gs, h => by
+      cases h with
+      | cons _ _ _ _ _ ht => simp [list_length_differs mt σ ps gs ht]
+
+/-- a node of another type (a call is not an index expression, `x++` is not `x--` …) -/
+theorem node_type_differs (mt : Meta) (σ : Subst) (t t' : String) (id id' : Nat) (fs gs : List V)
+    (hi : ignoredPtr t = false) (hm : t ≠ "ast.Ident") (hf : forDotsKeyOf t fs = none)
+    (h : Inst mt σ (.ptr t id fs) (.ptr t' id' gs)) : t = t' := by
+  cases h with
+  | ignoredPtr _ _ _ _ h1 => simp [hi] at h1
+  | metavar => exact absurd rfl hm
+  | forDots _ _ _ k _ _ _ _ _ hk => simp [hf] at hk
+  | ptr => rfl
+
+/-- an optional part present in the code but absent in the pattern (or the reverse) -/
+theorem nil_differs (mt : Meta) (σ : Subst) (t t' : String) (id : Nat) (gs : List V)
+    (hi : ignoredPtr t = false) (h : Inst mt σ (.nilP t) (.ptr t' id gs)) : False := by
+  cases h with
+  | ignoredNil _ _ h1 => simp [hi] at h1
+  | nilP _ _ h1 => simp [V.isNil] at h1
 
 end Gopatch.C01
